@@ -38,6 +38,11 @@ type Disk struct {
 	DeletedBy    map[string]string
 	WrittenBy    map[string]string
 	Overwrites   []string // immutable-by-design files (.sst/.wal) whose content was replaced
+
+	// Oracle hooks, called synchronously (no yields inside) when a file becomes
+	// visible / disappears.
+	OnPublish func(node, path string, data []byte)
+	OnRemove  func(node, path string, data []byte)
 	pendingDel   []pendingDelete
 }
 
@@ -107,17 +112,28 @@ func (d *Disk) publish(node, p string, data []byte) {
 	d.files[p] = data
 	d.WrittenBy[p] = node
 	delete(d.DeletedBy, p)
+	hook := d.OnPublish
 	d.mu.Unlock()
+	if hook != nil {
+		hook(node, p, data)
+	}
 }
+
+// PublishRaw places a file without going through the system (harness set-up).
+func (d *Disk) PublishRaw(node, p string, data []byte) { d.publish(node, p, data) }
 
 func (d *Disk) remove(p, by string) bool {
 	d.mu.Lock()
-	_, ok := d.files[p]
+	data, ok := d.files[p]
 	delete(d.files, p)
 	if ok {
 		d.DeletedBy[p] = by
 	}
+	hook := d.OnRemove
 	d.mu.Unlock()
+	if ok && hook != nil {
+		hook(by, p, data)
+	}
 	return ok
 }
 
